@@ -240,6 +240,34 @@ Example ex_code_loop_on_witness :
   fst (run_load w_path (w_load (32, 0))) = w_path /\ fst (run_load w_path (w_load (64, 8))) <> w_path.
 Proof. split; [vm_compute; reflexivity|]. split; [vm_compute; reflexivity|]. split; [vm_compute; reflexivity | vm_compute; discriminate]. Qed.
 
+(* ---- the same statements on the numeric amplifier state (dB), the part the harness compares with every Edfa ---- *)
+(* effective gain after a propagation = min(gain before, p_max - pin): never above the gain before, output never above p_max *)
+Theorem amplifier_clamp : forall g pmax p,
+  clamp_db g pmax (Some p) <= g /\ clamp_db g pmax (Some p) + p <= pmax /\ clamp_db g pmax None = g.
+Proof. intros. split; [apply Proofs.Verdict.clamp_db_le|]. split; [apply Proofs.Verdict.clamp_db_pmax | reflexivity]. Qed.
+Print Assumptions amplifier_clamp.
+(* the loop of the code (snapshot, then restore + propagate per iteration): the gain after the k-th propagation is the
+   clamp of the DESIGNED gain by that propagation's own input power — nothing of the earlier iterations is left *)
+Theorem amplifier_state_in_mode_loop : forall g0 pmax pins,
+  amp_history g0 pmax (loop_events pins) = map (clamp_db g0 pmax) pins.
+Proof. exact Proofs.Verdict.loop_history. Qed.
+Print Assumptions amplifier_state_in_mode_loop.
+(* propagations on shared objects without restore (a batch without the per-request copy; the loop before 6c7139d6): each
+   gain is the clamp of the previous one; the gains never come back up and are at most those of fresh propagations *)
+Theorem amplifier_state_when_shared : forall g0 pmax pins,
+  amp_history g0 pmax (shared_events pins) = running pmax g0 pins /\
+  StronglySorted (fun a b => b <= a) (running pmax g0 pins) /\
+  Forall2 (fun x f => x <= f) (running pmax g0 pins) (map (clamp_db g0 pmax) pins).
+Proof.
+  intros. split; [apply Proofs.Verdict.shared_history|].
+  split; [apply Proofs.Verdict.running_decreasing | apply Proofs.Verdict.running_le_fresh].
+Qed.
+Print Assumptions amplifier_state_when_shared.
+Example ex_amplifier_state :
+  amp_history 23 21 (shared_events [Some 3; Some (-5)]) = [18; 18] /\
+  amp_history 23 21 (loop_events [Some 3; Some (-5)]) = [18; 23].
+Proof. exact Proofs.Verdict.shared_differs_from_loop. Qed.
+
 (* ---- non-vacuity ---- *)
 Definition ex_rx : receiver := [receive1 32 (1 # 1000) (2 # 1000) (3 # 1000) (4 # 1000); receive1 64 (1 # 500) (1 # 400) (1 # 300) (1 # 200)].
 Example ex_history :
